@@ -232,6 +232,9 @@ class PDPEnv(RL4COEnvBase):
 
     def select_start_nodes(self, td, num_starts):
         """Only nodes from [1 : num_loc // 2 +1] (i.e. pickups) can be selected"""
+        if self.force_start_at_depot:
+            # the only feasible first action is the depot
+            return torch.zeros(num_starts * td.shape[0], dtype=torch.int64, device=td.device)
         num_possible_starts = (td["locs"].shape[-2] - 1) // 2
         selected = (
             torch.arange(num_starts, device=td.device).repeat_interleave(td.shape[0])
